@@ -121,10 +121,17 @@ def worker(lines):
     return res
 
 
-def record(rng, d):
+def record(rng, d, many=False):
     import mido
     n = rng.choice([0, 1, 2, 5, 20])
     msgs = []
+    if many:
+        # more messages in one file than any plausible internal bound
+        n = 0
+        for k in range(1300):
+            msgs.append(mido.Message('sysex', data=[k % 128, k // 128]))
+            if k % 3 == 0:
+                msgs.append(mido.Message('clock'))
     for _ in range(n):
         k = rng.random()
         if k < 0.6:
@@ -161,7 +168,7 @@ def record(rng, d):
 def replay(case):
     if 'rseed' in case:
         d = core.scratch('syx')
-        rec = record(random.Random(case['rseed']), d)
+        rec = record(random.Random(max(case['rseed'], 1)), d, many=case['rseed'] == -1)
         ctx = core.Ctx('C19', 'quick', 0)
         rej = validate(ctx, [rec])
         return rej and 'trace rejected: %r' % ({k: (v if k == 'err' else str(v)[:100]) for k, v in rec.items()},)
@@ -209,10 +216,25 @@ CHECK_DEADLOCK FALSE
     seeds = [rng.randrange(1 << 30) for _ in range(150 if thorough else 40)]
     d = core.scratch('syx')
     recs = [record(random.Random(s), d) for s in seeds]
+    seeds.append(-1)
+    recs.append(record(random.Random(1), d, many=True))
     for i in validate(ctx, recs):
         ctx.violation('syx/trace-rejected', {'rseed': seeds[i]},
                       'write/read of a random list rejected: %d messages, error %r' % (
                           len(recs[i]['msgs']), recs[i].get('err')))
+    import mido
+    path = os.path.join(d, 'big.syx')
+    with open(path, 'wb') as f:
+        f.write(bytes([0xf0, 1, 2, 0xf7, 0xf0, 3, 0xf7] + [0xf8] * 1500 + [0xf0, 4, 0xf7]))
+    ctx.replayed += 1
+    try:
+        got = [list(m.bytes()) for m in mido.read_syx_file(path)]
+    except Exception as e:
+        got = repr(e)
+    if got != [[0xf0, 1, 2, 0xf7], [0xf0, 3, 0xf7], [0xf0, 4, 0xf7]]:
+        ctx.violation('syx/wrong-messages/foreign-many', {'row': [3, 0, [[0xf0, 1, 2, 0xf7], [0xf0, 3, 0xf7]] + [[0xf8]] * 1500 + [[0xf0, 4, 0xf7]],
+                                                         [[0xf0, 1, 2, 0xf7], [0xf0, 3, 0xf7], [0xf0, 4, 0xf7]]]},
+                      'a binary file with 3 sysex and 1500 clock messages read as %s' % (str(got)[:200],))
     ctx.note('random_lists', len(recs))
     ctx.note('random_bytes', sum(len(r['binfile']) for r in recs))
     ctx.exhaustive = True
